@@ -107,6 +107,17 @@ def check(ctx):
             p = ctx.call_method(I, st, o, "predict", Xv)
             ctx.compare("NF-FILTER", f"predict = X @ coef_^T [{cfg}]", N, p, T("matmul", Xv.term, T("T", ctx.attr(st, o, "coef_").term)), ctx.site(P.method(cls, "predict")), cfg)
             ctx.no_shape_conflicts("Shape", f"predict on new data [{cfg}]", I, lo, ctx.site(P.method(cls, "predict")), cfg)
+    # a single target given as a vector: same solution, one axis less
+    for method in ("tikhonov", "cutoff"):
+        cfg = f"{method},1-D y"
+        I = ctx.interp(assume=protocols.assume_default, call_hook=protocols.fold_hook)
+        st = State()
+        o = ctx.construct(I, st, cls, alphas=arr("alphas", "G"), regularization_method=method)
+        ctx.call_method(I, st, o, "fit", arr("X", "N", "M"), arr("y", "N"))
+        ctx.no_shape_conflicts("Shape", f"fit with a 1-D target [{cfg}]", I, 0, site, cfg)
+        ctx.shape_is("Shape", f"coef_ is (n_features,) for a 1-D target [{cfg}]", ctx.attr(st, o, "coef_"), ("M",), site, cfg)
+        p1 = ctx.call_method(I, st, o, "predict", arr("Xv", "V", "M"))
+        ctx.shape_is("Shape", f"predict is (n_new,) for a 1-D target [{cfg}]", p1, ("V",), ctx.site(P.method(cls, "predict")), cfg)
     # default scorer
     I = ctx.interp(assume=protocols.assume_default, call_hook=protocols.fold_hook)
     st = State()
